@@ -197,18 +197,28 @@ void mcount_arch_get_retval(struct mcount_arg_context *ctx, struct uftrace_arg_s
  */
 static int mcount_arch_have_avx = -1;
 
+/* 0: xmm only, 1: ymm state enabled (AVX), 2: zmm state enabled (AVX-512F) */
 static int mcount_arch_check_avx(void)
 {
 	unsigned int eax, ebx, ecx, edx;
+	unsigned int xcr0;
 
 	asm volatile("cpuid" : "=a"(eax), "=b"(ebx), "=c"(ecx), "=d"(edx) : "a"(1), "c"(0));
 	/* OSXSAVE and AVX */
 	if ((ecx & (1U << 27)) == 0 || (ecx & (1U << 28)) == 0)
 		return 0;
 
-	asm volatile("xgetbv" : "=a"(eax), "=d"(edx) : "c"(0));
+	asm volatile("xgetbv" : "=a"(xcr0), "=d"(edx) : "c"(0));
 	/* xmm and ymm state enabled in XCR0 */
-	return (eax & 6) == 6;
+	if ((xcr0 & 6) != 6)
+		return 0;
+
+	asm volatile("cpuid" : "=a"(eax), "=b"(ebx), "=c"(ecx), "=d"(edx) : "a"(7), "c"(0));
+	/* AVX512F, with opmask and both zmm state components enabled in XCR0 */
+	if ((ebx & (1U << 16)) && (xcr0 & 0xe0) == 0xe0)
+		return 2;
+
+	return 1;
 }
 
 static void mcount_save_arch_context_sse(struct mcount_arch_context *ctx)
@@ -259,12 +269,38 @@ static void mcount_restore_arch_context_avx(struct mcount_arch_context *ctx)
 	asm volatile("vmovdqu %0, %%ymm7\n" ::"m"(ctx->xmm[7]));
 }
 
+static void mcount_save_arch_context_avx512(struct mcount_arch_context *ctx)
+{
+	asm volatile("vmovdqu64 %%zmm0, %0\n" : "=m"(ctx->xmm[0]));
+	asm volatile("vmovdqu64 %%zmm1, %0\n" : "=m"(ctx->xmm[1]));
+	asm volatile("vmovdqu64 %%zmm2, %0\n" : "=m"(ctx->xmm[2]));
+	asm volatile("vmovdqu64 %%zmm3, %0\n" : "=m"(ctx->xmm[3]));
+	asm volatile("vmovdqu64 %%zmm4, %0\n" : "=m"(ctx->xmm[4]));
+	asm volatile("vmovdqu64 %%zmm5, %0\n" : "=m"(ctx->xmm[5]));
+	asm volatile("vmovdqu64 %%zmm6, %0\n" : "=m"(ctx->xmm[6]));
+	asm volatile("vmovdqu64 %%zmm7, %0\n" : "=m"(ctx->xmm[7]));
+}
+
+static void mcount_restore_arch_context_avx512(struct mcount_arch_context *ctx)
+{
+	asm volatile("vmovdqu64 %0, %%zmm0\n" ::"m"(ctx->xmm[0]));
+	asm volatile("vmovdqu64 %0, %%zmm1\n" ::"m"(ctx->xmm[1]));
+	asm volatile("vmovdqu64 %0, %%zmm2\n" ::"m"(ctx->xmm[2]));
+	asm volatile("vmovdqu64 %0, %%zmm3\n" ::"m"(ctx->xmm[3]));
+	asm volatile("vmovdqu64 %0, %%zmm4\n" ::"m"(ctx->xmm[4]));
+	asm volatile("vmovdqu64 %0, %%zmm5\n" ::"m"(ctx->xmm[5]));
+	asm volatile("vmovdqu64 %0, %%zmm6\n" ::"m"(ctx->xmm[6]));
+	asm volatile("vmovdqu64 %0, %%zmm7\n" ::"m"(ctx->xmm[7]));
+}
+
 void mcount_save_arch_context(struct mcount_arch_context *ctx)
 {
 	if (mcount_arch_have_avx < 0)
 		mcount_arch_have_avx = mcount_arch_check_avx();
 
-	if (mcount_arch_have_avx)
+	if (mcount_arch_have_avx == 2)
+		mcount_save_arch_context_avx512(ctx);
+	else if (mcount_arch_have_avx == 1)
 		mcount_save_arch_context_avx(ctx);
 	else
 		mcount_save_arch_context_sse(ctx);
@@ -272,7 +308,9 @@ void mcount_save_arch_context(struct mcount_arch_context *ctx)
 
 void mcount_restore_arch_context(struct mcount_arch_context *ctx)
 {
-	if (mcount_arch_have_avx > 0)
+	if (mcount_arch_have_avx == 2)
+		mcount_restore_arch_context_avx512(ctx);
+	else if (mcount_arch_have_avx == 1)
 		mcount_restore_arch_context_avx(ctx);
 	else
 		mcount_restore_arch_context_sse(ctx);
